@@ -247,9 +247,45 @@ LSTerms ==
      Op("str_prefixof", <<Sym("s", TString), Op("ite", <<P, StrC(<<97>>), Sym("s", TString)>>)>>),
      Op("bv_ult", <<Bb, Op("ite", <<Op("bv_ult", <<Cc, Bb>>), Cc, BVC(1, 2)>>)>>)}
 
+\* ---------------------------------------------------------------------------
+\* operator mixes per feature family for logic detection (C13)
+Ss == Sym("s", TString)
+LGTerms ==
+    {Op("equals", <<Op("int_to_str", <<Xx>>), Op("int_to_str", <<Yy>>)>>),
+     Op("equals", <<Op("int_to_str", <<Xx>>), Ss>>),
+     Op("le", <<Op("str_length", <<Ss>>), IntC(3)>>), Op("lt", <<Op("str_to_int", <<Ss>>), Xx>>),
+     Op("equals", <<Op("str_indexof", <<Ss, StrC(<<97>>), IntC(0)>>), IntC(1)>>),
+     Op("str_contains", <<Ss, StrC(<<97>>)>>), Op("equals", <<Op("str_charat", <<Ss, Xx>>), StrC(<<97>>)>>),
+     Quant("forall", <<BVar("w8", TBV(8))>>, P), Quant("exists", <<BVar("zi", TInt)>>, P),
+     Quant("forall", <<BVar("zr", TReal)>>, Op("or", <<P, Qs>>)), Quant("exists", <<BVar("zs", TString)>>, P),
+     Quant("forall", <<BVar("za", TArray(TInt, TInt))>>, P), Quant("forall", <<BVar("k1", TSort("S"))>>, P),
+     Op("le", <<Op("bv_tonatural", <<Bb>>), IntC(2)>>), Op("equals", <<Op("bv_tonatural", <<Bb>>), Op("bv_tonatural", <<Cc>>)>>),
+     Op("le", <<Op("toreal", <<Xx>>), Sym("r", TReal)>>), Op("lt", <<Op("toreal", <<Xx>>), RealC(<<1, 2>>)>>),
+     Op("le", <<Op("times", <<Xx, Yy>>), IntC(1)>>), Op("le", <<Op("times", <<Xx, IntC(2)>>), IntC(1)>>),
+     Op("le", <<Op("times", <<Xx, Xx>>), Yy>>), Op("le", <<Op("times", <<App("f", TF1, <<Xx>>), Yy>>), IntC(0)>>),
+     Op("le", <<Op("div", <<Xx, Yy>>), IntC(1)>>), Op("le", <<Op("div", <<IntC(1), Xx>>), IntC(1)>>),
+     Op("le", <<Op("div", <<Sym("r", TReal), Sym("u", TReal)>>), RealC(<<1, 1>>)>>),
+     Op("le", <<Op("div", <<RealC(<<1, 1>>), Sym("r", TReal)>>), RealC(<<1, 1>>)>>),
+     Op("le", <<Op("div", <<Xx, IntC(0)>>), IntC(1)>>), Op("le", <<Op("div", <<Xx, IntC(2)>>), IntC(1)>>),
+     Op("le", <<Op("pow", <<Sym("r", TReal), RealC(<<2, 1>>)>>), RealC(<<1, 1>>)>>),
+     Op("le", <<Op("pow", <<Xx, IntC(2)>>), RealC(<<1, 1>>)>>),
+     Op("equals", <<Sym("a", TAII), K0>>), Op("equals", <<Op("array_select", <<K0s, Xx>>), IntC(1)>>),
+     Op("equals", <<Op("array_store", <<Sym("a", TAII), Xx, Yy>>), Sym("a", TAII)>>),
+     Op("array_select", <<Sym("m", TAVB), Bb>>), Op("equals", <<Sym("m", TAVB), KB>>),
+     Op("equals", <<Sym("k1", TSort("S")), Sym("k2", TSort("S"))>>),
+     Op("equals", <<Sym("ak", TArray(TSort("S"), TReal)), Sym("ak2", TArray(TSort("S"), TReal))>>),
+     App("g", TG1, <<Bb>>), Op("equals", <<App("f", TF1, <<Xx>>), Yy>>), Op("le", <<App("h", TH2, <<P, Sym("r", TReal)>>), RealC(<<0, 1>>)>>),
+     Op("le", <<Op("minus", <<Xx, Yy>>), IntC(3)>>), Op("le", <<Op("plus", <<Xx, Yy>>), IntC(3)>>),
+     Op("le", <<Op("minus", <<Sym("r", TReal), Sym("u", TReal)>>), RealC(<<3, 1>>)>>),
+     Op("and", <<Op("le", <<Xx, Yy>>), Op("bv_ult", <<Bb, Cc>>)>>),
+     Op("and", <<Op("le", <<Xx, Yy>>), Op("le", <<Sym("r", TReal), Sym("u", TReal)>>)>>),
+     Op("ite", <<P, Op("bv_ult", <<Bb, Cc>>), Op("str_prefixof", <<Ss, Ss>>)>>),
+     Op("equals", <<Op("ite", <<P, Xx, Op("str_length", <<Ss>>)>>), IntC(0)>>),
+     Op("equals", <<Op("bv_concat", <<Bb, Cc>>), BVC(3, 4)>>) }
+
 Corpus == CASE Layer = "L1" -> L1_(0) [] Layer = "L2" -> L2_(0) [] Layer = "LQ" -> LQ_(0)
             [] Layer = "G1" -> GroundCases(FALSE) [] Layer = "G1W" -> GroundCases(TRUE)
-            [] Layer = "VALS" -> {ValPool} [] Layer = "LS" -> LSTerms
+            [] Layer = "VALS" -> {ValPool} [] Layer = "LS" -> LSTerms [] Layer = "LG" -> LGTerms
 
 VARIABLE done
 Init == done = FALSE /\ LET c == SetToSeq(Corpus)
